@@ -124,3 +124,25 @@ def _chain_lemma():
 TO_NATIVE = _view_contract("_scaled_to_native", True)
 FROM_NATIVE = _view_contract("_scaled_from_native", False)
 CONTRACTS += [GET_X_LIMITS, CHECK_SCAL, TO_NATIVE, FROM_NATIVE]
+
+
+# ----------------------------------------------------------------------------- MeritFuctionView.get_jacobian: the chain-rule factor (block)   (C16)
+def _factor_post(o, n, r):
+    B = bounds_of(o.self.merit_function.t)
+    lo, hi = view_lo(B), view_hi(B)
+    s0, s1 = o.self.rescale_x.items[0].t, o.self.rescale_x.items[1].t
+    return n.dx_native_dx_scaled.t == (hi - lo) / (s1 - s0)
+
+
+CHAIN_FACTOR = Contract(
+    module=MO, qualname="MeritFuctionView.get_jacobian", params=dict(self=TView, x=TPW),
+    requires=[("non-degenerate-intervals", lambda s: s.self.rescale_x.items[0].t != s.self.rescale_x.items[1].t)],
+    axioms=[lambda s: z3.ForAll([z3.Const("b!v", V)], view_lo(z3.Const("b!v", V)) != view_hi(z3.Const("b!v", V)))],
+    ensures=[("d x_native / d x_scaled == (upper - lower) / (rescale_x[1] - rescale_x[0]), from the CURRENT bounds", _factor_post)],
+    raises={"UserError": dict(when=None, post=[], modifies=())},
+    min_obligations=1,
+    extra=dict(engine=ViewEngine, variant="chain-rule-factor",
+               block=dict(inside=dict(first="if self.rescale_x:", nth=1, of=2), until="jac = jac_native.copy()")),
+    note="block contract (pointwise over the knob axis): the factor each column of the native Jacobian is multiplied by is the slope of "
+         "the affine map scaled -> native, whatever the normalised interval is, computed through the proved _scaled_to_native")
+VARIANTS = [CHAIN_FACTOR]
